@@ -196,7 +196,7 @@ func handPolicies() []*PolicySpec {
 var textFrags = []string{"hello", " ", "a&amp;b", "&lt;script&gt;", "x < y", "1 > 0", "\"q\"", "it's", "&", "&#60;", "&#x3c;b&#x3e;", "&notit;", "&amp", "&#0;",
 	"&#128;", "&#xD800;", "café", "\U0001F600", "\xff\xfe", "\x00", "a\r\nb", "c\rd", "&#13;", "&Aacute", "&lt", "<", "</", "<!", "&#4294967361;",
 	"&#1x", "&#x;", "&AMP;c", "MARK1", "MARK2", "javascript:alert(1)", "\t", "&nbsp;x", "&#x10FFFF;", "&#1114112;", "&gt;", "--&gt;", "]]>"}
-var urlFrags = []string{"http://example.org/a?b=c#d", "https://x.test/", "/rel/path", "rel", "#frag", "?q=1", "//host/p", "mailto:a@b.c", "javascript:alert(1)",
+var urlFrags = []string{"a b", "a\tb", "ab c", "a b:", " a\nb ", "d: a", "http://example.org/a?b=c#d", "https://x.test/", "/rel/path", "rel", "#frag", "?q=1", "//host/p", "mailto:a@b.c", "javascript:alert(1)",
 	"JaVaScRiPt:alert(1)", " javascript:alert(1)", "java\tscript:alert(1)", "java&#10;script:alert(1)", "&#106;avascript:alert(1)", "data:text/html,<b>", "data:image/png;base64,iVBORw0KGgo=",
 	"data:image/png;base64,iVBO\nRw0K Ggo=", "ftp://f/", "http://a b/", "http://[::1]/", "http://%41/", "tel:+1", "x:y", ":x", "http:", "http://example.org", "HTTP://EXAMPLE.ORG/",
 	"\x01http://x/", "http://x/\x7f", "vbscript:x", "http://user:pw@h/", "http://h/%zz", " http://x/", "a:b:c", "//", "", "  ", "http://h/a;b?c=d&e=f;g", "./a:b",
@@ -462,4 +462,23 @@ func describeOps(ps *PolicySpec) string {
 		p = append(p, fmt.Sprintf("%s%v", o.Kind, o.Names))
 	}
 	return strings.Join(p, " ")
+}
+
+// shortURLs: every string of at most 4 bytes over a small alphabet (white space inside very short values,
+// a colon or slash at every position): the values on which prefix tests and slicing go wrong
+func shortURLs() []string {
+	alpha := []string{"a", " ", ":", "/", "\t", "d", "#"}
+	out := []string{""}
+	level := []string{""}
+	for n := 0; n < 4; n++ {
+		var next []string
+		for _, p := range level {
+			for _, c := range alpha {
+				next = append(next, p+c)
+			}
+		}
+		out = append(out, next...)
+		level = next
+	}
+	return out
 }
